@@ -13,6 +13,7 @@ mod auth;
 mod c02;
 mod c06;
 mod c07;
+mod c08;
 mod c09;
 mod gen;
 mod c10;
@@ -104,6 +105,7 @@ fn main() {
         "C05" => auth::run_c05(&mut ctx),
         "C06" => c06::run(&mut ctx),
         "C07" => c07::run(&mut ctx),
+        "C08" => c08::run(&mut ctx),
         "C09" => c09::run(&mut ctx),
         "C10" => c10::run(&mut ctx),
         "C11" => c11::run(&mut ctx),
